@@ -30,7 +30,7 @@ def mdids(md):
 
 
 class Activity:
-    __slots__ = ('node', 'call', 'in_idx', 'md', 'root', 'done', 'ok', 'start_seq', 'end_seq', 'kind')
+    __slots__ = ('node', 'call', 'in_idx', 'md', 'root', 'done', 'ok', 'start_seq', 'end_seq', 'kind', 'ran')
 
 
 class Ctx:
@@ -67,6 +67,7 @@ class Ctx:
         a.root = self.rec.root
         a.done = False
         a.ok = None
+        a.ran = False
         a.start_seq = self.rec.rec('fn_start', nid, call, kind, freeze(x), a.md, a.root)
         a.end_seq = None
         self.activities.append(a)
@@ -104,6 +105,7 @@ class Ctx:
         ctx = self
 
         async def native(a, x):
+            a.ran = True          # (a coroutine object that nobody awaits never gets here)
             lat = ctx._lat(nid, a.call)
             when = ctx.fails.get((nid, a.call))
             if when == 'pre':
